@@ -569,3 +569,13 @@ func (w *World) AuditHeartbeat(c *Client, n int) {
 		w.emitLocked(fmt.Sprintf("audit heartbeat %d %d", c.txn.startTS, n))
 	}
 }
+
+// AuditHeld emits `audit held <startTS> <keys>`: the client reports these keys as locked by its current transaction (a lock
+// call on them just returned success); the judge wants the store to hold the transaction's lock on each of them.
+func (w *World) AuditHeld(c *Client, keys [][]byte) {
+	w.rec.mu.Lock()
+	defer w.rec.mu.Unlock()
+	if c.txn != nil && !c.crashed.Load() && len(keys) > 0 {
+		w.emitLocked(fmt.Sprintf("audit held %d %s", c.txn.startTS, HexList(keys)))
+	}
+}
